@@ -16,7 +16,7 @@ From SV Require Import Proofs.AssemblerProofs Proofs.TcpRecvBase Proofs.TcpRecvW
   Proofs.TcpRecvPayload Proofs.TcpRecvInv Proofs.TcpRecvProcess Proofs.TcpRecvStep
   Proofs.TcpRecvSync Proofs.TcpRecvDispatch Proofs.TcpRecvTrace Proofs.TcpRecvTheorems.
 From SV Require Import Proofs.TcpSendBase Proofs.TcpSendInv.
-From SV Require Import Proofs.TcpNetBase Proofs.TcpNetContract.
+From SV Require Import Proofs.TcpNetBase Proofs.TcpNetFrame Proofs.TcpNetContract.
 
 Notation rxghost := TcpRecvTrace.ghost.
 Notation txghost := TcpSendInv.ghost.
@@ -43,6 +43,9 @@ Proof. intros H. unfold sq. change (2 ^ 32) with 4294967296. apply Z.mod_small. 
 (* offsets congruent modulo 2^32 and closer than 2^32 are equal *)
 Lemma sq_offsets_eq b x y : sq (b + x) = sq (b + y) -> - 4294967296 < x - y < 4294967296 -> x = y.
 Proof. unfold sq. change (2 ^ 32) with 4294967296. intros H Hr. lia. Qed.
+
+Lemma seq_add_norm_l x y : seq_norm (seq_norm x + y) = seq_norm (x + y).
+Proof. unfold seq_norm. rewrite Zplus_mod_idemp_l. reflexivity. Qed.
 
 Lemma znth_conv l i : TcpSendBase.znth l i = rznth l i.
 Proof. reflexivity. Qed.
@@ -226,7 +229,7 @@ Definition jl (J : option Z) (g : txghost) (s : socket) : Prop :=
 Definition rcv_nxt_off (gr : rxghost) (s : socket) : Z := rcv_count gr s + b2z (s_rx_fin_received s).
 
 Definition kl (K : option Z) (R : Z) (gr : rxghost) (s : socket) : Prop :=
-  0 <= R /\
+  0 <= R /\ (forall k, K = Some k -> 0 <= k < 4294967296) /\
   match g_irs gr with
   | Some irs => K = Some irs /\ R = rcv_nxt_off gr s
   | None => R = 0 \/ s_state s = Closed
@@ -274,3 +277,420 @@ Definition INV (Sa : Z -> Z) (Fa : option Z) (Sb : Z -> Z) (Fb : option Z) (isn 
   EP Sb Fb (n_a st) ga /\ EP Sa Fa (n_b st) gb /\
   DIR Sa Fa (n_a st) ga (n_b st) gb /\ DIR Sb Fb (n_b st) gb (n_a st) ga /\
   ROLES isn (n_a st) ga (n_b st) gb /\ chan_sub st.
+
+(* ---------------------------------------------------------------------------------------- *)
+(* a consistent in-flight segment is admissible for C04's receiver                           *)
+(* ---------------------------------------------------------------------------------------- *)
+Lemma wire_parse_fields r :
+  r_payload (wire_parse r) = r_payload r /\ r_seq_number (wire_parse r) = r_seq_number r /\
+  r_control (wire_parse r) = r_control r /\ r_ack_number (wire_parse r) = r_ack_number r.
+Proof. unfold wire_parse. cbn. repeat split; reflexivity. Qed.
+
+(* the stream offset the receiver computes for a segment = the offset the sender meant *)
+Lemma seg_q_exact c s r j q :
+  tcp_window_start s = seq_norm (j + 1 + wsq c s) ->
+  r_seq_number r = sq (j + 1 + q) ->
+  - 2147483648 <= q - wsq c s < 2147483648 ->
+  seg_q c s r = q.
+Proof.
+  intros Hws Hseq Hage. unfold seg_q, seg_d. rewrite Hws, Hseq, sq_norm.
+  rewrite seq_sdiff_norm by lia. lia.
+Qed.
+
+Lemma compat_F_nonneg S F e : compat S F e -> forall f, F = Some f -> 0 <= f.
+Proof.
+  intros (_ & C2 & _) f Hf. specialize (C2 f Hf). pose proof (TcpRecvBase.l_len_nonneg (ep_written e)). lia.
+Qed.
+
+Lemma seg_ok_of_good S F have irs c s J L R p ex :
+  rx_synced S F have irs c s ->
+  compat S F ex -> L = l_len (ep_written ex) ->
+  pkt_good S F J L R p ->
+  (forall j, J = Some j -> irs = j) ->
+  R = wsq c s -> R <= L + 1 ->
+  (forall k, -1 <= k <= L ->
+     r_seq_number (snd p) = seq_norm (tcp_window_start s + (k - wsq c s)) ->
+     - 2147483648 <= k - wsq c s < 2147483648) ->
+  seg_ok S F c s (wire_parse (snd p)).
+Proof.
+  intros Hsy (C1 & C2 & C3) HL ((W1 & W2 & _) & Hgood) Hanchor HR HRL Hage.
+  pose proof (synced_window_start _ _ _ _ _ _ Hsy) as Hws.
+  destruct (wire_parse_fields (snd p)) as (P1 & P2 & P3 & _).
+  unfold seg_ok. rewrite P1, P2, P3. cbv zeta.
+  split; [lia|]. split; [change 4294967296 with (2 ^ 32); exact W1|].
+  intros Hnear.
+  assert (Hq : seg_q c s (wire_parse (snd p)) = seg_q c s (snd p)).
+  { unfold seg_q, seg_d. rewrite P2. reflexivity. }
+  rewrite Hq. clear Hq.
+  destruct (Z.ltb_spec 0 (l_len (r_payload (snd p)))) as [Hn|Hn].
+  2:{ (* no payload *)
+      destruct (control_eqb (r_control (snd p)) CFin) eqn:Ec.
+      - (* bare FIN *)
+        assert (Hfin : r_control (snd p) = CFin) by (destruct (r_control (snd p)); try discriminate; reflexivity).
+        destruct (Hgood (or_intror Hfin)) as (j & HJ & [Hd | Hk]).
+        + destruct Hd as (k & Hk0 & Hseq & Hbytes & HkL & Hf).
+          assert (Hirs : irs = j) by (apply Hanchor; exact HJ). subst irs.
+          assert (Hqk : seg_q c s (snd p) = k).
+          { apply (seg_q_exact c s (snd p) j k Hws Hseq).
+            apply Hage; [lia|]. rewrite Hws, Hseq, sq_norm, seq_add_norm_l. f_equal. lia. }
+          rewrite Hqk. split; [intros i Hi; lia|]. split; [lia|]. intros _. apply Hf. exact Hfin.
+        + destruct Hk as (_ & Hc & _). congruence.
+      - split; [intros i Hi; lia|]. split; [lia|]. intros E. rewrite E in Ec. discriminate. }
+  destruct (Hgood (or_introl Hn)) as (j & HJ & [Hd | Hk]).
+  - destruct Hd as (k & Hk0 & Hseq & Hbytes & HkL & Hf).
+    assert (Hirs : irs = j) by (apply Hanchor; exact HJ). subst irs.
+    assert (Hqk : seg_q c s (snd p) = k).
+    { apply (seg_q_exact c s (snd p) j k Hws Hseq).
+      apply Hage; [lia|]. rewrite Hws, Hseq, sq_norm, seq_add_norm_l. f_equal. lia. }
+    rewrite Hqk. split; [intros i Hi _; apply Hbytes; exact Hi|].
+    split; [|exact Hf]. intros _ _ f HF. specialize (C2 f HF). lia.
+  - destruct Hk as (Hn1 & Hc & u & Hu & Hseq).
+    assert (Hirs : irs = j) by (apply Hanchor; exact HJ). subst irs.
+    assert (Hqk : seg_q c s (snd p) = u - 1).
+    { apply (seg_q_exact c s (snd p) j (u - 1) Hws).
+      - rewrite Hseq. f_equal. lia.
+      - apply Hage; [lia|]. rewrite Hws, Hseq, sq_norm, seq_add_norm_l. f_equal. lia. }
+    rewrite Hqk. split; [intros i Hi Hge; lia|]. split; [lia|]. intros E; congruence.
+Qed.
+
+(* offsets a consistent segment adds to the receiver's "have" set were written by the sender *)
+Lemma have_of_good S F have irs c s J L R p ex k :
+  rx_synced S F have irs c s ->
+  compat S F ex -> L = l_len (ep_written ex) ->
+  pkt_good S F J L R p ->
+  (forall j, J = Some j -> irs = j) ->
+  R = wsq c s -> R <= L + 1 ->
+  (forall k, -1 <= k <= L ->
+     r_seq_number (snd p) = seq_norm (tcp_window_start s + (k - wsq c s)) ->
+     - 2147483648 <= k - wsq c s < 2147483648) ->
+  wsq c s <= k ->
+  seg_q c s (wire_parse (snd p)) <= k < seg_q c s (wire_parse (snd p)) + l_len (r_payload (wire_parse (snd p))) ->
+  J <> None /\ 0 <= k < L.
+Proof.
+  intros Hsy (C1 & C2 & C3) HL ((W1 & W2 & _) & Hgood) Hanchor HR HRL Hage Hk1 Hk2.
+  pose proof (synced_window_start _ _ _ _ _ _ Hsy) as Hws.
+  destruct (wire_parse_fields (snd p)) as (P1 & P2 & P3 & _).
+  assert (Hq : seg_q c s (wire_parse (snd p)) = seg_q c s (snd p)).
+  { unfold seg_q, seg_d. rewrite P2. reflexivity. }
+  rewrite Hq, P1 in Hk2. clear Hq.
+  assert (Hn : 0 < l_len (r_payload (snd p))) by lia.
+  destruct (Hgood (or_introl Hn)) as (j & HJ & [Hd | Hka]).
+  - destruct Hd as (k0 & Hk0 & Hseq & Hbytes & HkL & Hf).
+    assert (Hirs : irs = j) by (apply Hanchor; exact HJ). subst irs.
+    assert (Hqk : seg_q c s (snd p) = k0).
+    { apply (seg_q_exact c s (snd p) j k0 Hws Hseq).
+      apply Hage; [lia|]. rewrite Hws, Hseq, sq_norm, seq_add_norm_l. f_equal. lia. }
+    rewrite Hqk in Hk2. split; [congruence | lia].
+  - destruct Hka as (Hn1 & Hc & u & Hu & Hseq).
+    assert (Hirs : irs = j) by (apply Hanchor; exact HJ). subst irs.
+    assert (Hqk : seg_q c s (snd p) = u - 1).
+    { apply (seg_q_exact c s (snd p) j (u - 1) Hws).
+      - rewrite Hseq. f_equal. lia.
+      - apply Hage; [lia|]. rewrite Hws, Hseq, sq_norm, seq_add_norm_l. f_equal. lia. }
+    rewrite Hqk in Hk2. lia.
+Qed.
+
+(* ---------------------------------------------------------------------------------------- *)
+(* one socket event at endpoint x: the new ghost                                             *)
+(* ---------------------------------------------------------------------------------------- *)
+Definition phase_syn (g : txghost) : bool := match g_phase g with PSyn => true | _ => false end.
+
+Lemma phase_syn_true g : phase_syn g = true <-> g_phase g = PSyn.
+Proof. unfold phase_syn. destruct (g_phase g); split; intros; congruence. Qed.
+Lemma phase_syn_false g : phase_syn g = false <-> g_phase g <> PSyn.
+Proof. unfold phase_syn. destruct (g_phase g); split; intros; congruence. Qed.
+
+Definition next_J (J : option Z) (gt' : txghost) : option Z :=
+  match J with
+  | Some j => Some j
+  | None => if phase_syn gt' then None else Some (sq (g_iss gt'))
+  end.
+Definition next_K (K : option Z) (gr' : rxghost) : option Z :=
+  match K with Some k => Some k | None => g_irs gr' end.
+Definition next_R (R : Z) (gr' : rxghost) (s' : socket) : Z :=
+  match g_irs gr' with Some _ => rcv_nxt_off gr' s' | None => R end.
+Definition next_g (gx : eghost) (gt' : txghost) (gr' : rxghost) (s' : socket) : eghost :=
+  mkEg gt' gr' (next_J (eg_J gx) gt') (next_K (eg_K gx) gr') (next_R (eg_R gx) gr' s').
+
+(* what ep_step did to the endpoint record *)
+Definition xfacts (ex : endpoint) (ev : event) (ex' : endpoint) (s' : socket) (out : step_out) : Prop :=
+  ep_sock ex' = s' /\ ep_cx ex' = ep_cx ex /\
+  ep_sent ex' = ep_sent ex ++ opt_list (wire_out out) /\
+  ep_written ex' = log_written (ep_written ex) ev out /\
+  ep_read ex' = log_read (ep_read ex) ev out /\
+  ep_finished ex' = log_finished (ep_finished ex) ev out /\
+  ep_closed ex' = log_closed (ep_closed ex) (s_state (ep_sock ex)) ev.
+
+Lemma una_syn g : g_phase g = PSyn -> g_una g = 0.
+Proof. unfold g_una. intros ->. reflexivity. Qed.
+
+Lemma una_pos g s : inv g s -> g_phase g <> PSyn -> 1 <= g_una g.
+Proof.
+  intros ((_ & _ & Ha & _) & _) Hp. unfold g_una. destruct (g_phase g); [congruence | lia | lia].
+Qed.
+
+Lemma una_nonneg g s : inv g s -> 0 <= g_una g.
+Proof.
+  intros Hi. destruct (g_phase g) eqn:E.
+  - rewrite (una_syn g E). lia.
+  - pose proof (una_pos g s Hi ltac:(congruence)). lia.
+  - pose proof (una_pos g s Hi ltac:(congruence)). lia.
+Qed.
+
+Lemma accepts_not_closed' s ip r : tcp_accepts s ip r = true -> s_state s <> Closed.
+Proof. intros H E. unfold tcp_accepts in H. rewrite E in H. cbn in H. discriminate. Qed.
+
+(* in CLOSED a step of the same epoch cannot leave the SYN phase *)
+Lemma same_closed_syn g s ev g' out s' :
+  inv g' s' -> tx_same g s ev g' out -> s_state s = Closed -> g_phase g = PSyn -> g_phase g' = PSyn.
+Proof.
+  intros Hi (_ & _ & _ & _ & _ & Hle & Hadv) Hc Hp.
+  destruct (g_phase g') eqn:E; [reflexivity|exfalso..].
+  all: rewrite (una_syn g Hp) in *;
+       assert (H1 : 1 <= g_una g') by (apply (una_pos g' s' Hi); congruence);
+       destruct (Hadv ltac:(lia)) as (ip & r & _ & Ha & _);
+       exact (accepts_not_closed' _ _ _ Ha Hc).
+Qed.
+
+(* ---------------------------------------------------------------------------------------- *)
+(* the sender-side links                                                                     *)
+(* ---------------------------------------------------------------------------------------- *)
+Lemma txl_step cx ex ev ex' s' out tags gt gt' :
+  run_ev ev -> tcp_step cx (ep_sock ex) ev = Ok (s', out, tags) -> xfacts ex ev ex' s' out ->
+  inv gt' s' ->
+  tx_same gt (ep_sock ex) ev gt' out \/ tx_new cx gt (ep_sock ex) ev gt' s' out ->
+  txl gt ex -> txl gt' ex'.
+Proof.
+  intros Hrun Hstep (X1 & _ & _ & X4 & _ & _ & X7) Hi' Hrel Htxl.
+  destruct (step_le _ _ _ _ _ _ Hrun Hstep) as (_ & HL & HC).
+  unfold txl, dead_tx. rewrite X1, X4, X7.
+  destruct Hrel as [Hs | (Hb' & Hn)].
+  - pose proof Hs as (_ & Hst & Hfin & _).
+    destruct Htxl as [(T1 & T2) | (Dc & Db)].
+    + left. rewrite Hst, Hfin, T1, T2. split; reflexivity.
+    + right. destruct (HC Dc) as (Hc' & _ & Hsend & _). split; [exact Hc'|].
+      destruct Db as (B1 & B2 & B3). unfold tx_blank. rewrite Hst, Hfin, B1, B2.
+      split; [|split].
+      * unfold log_written. destruct ev; try reflexivity. destruct (Hsend data eq_refl) as (e & ->). reflexivity.
+      * unfold log_closed. destruct ev; try reflexivity. rewrite Dc. reflexivity.
+      * eapply same_closed_syn; eassumption.
+  - destruct Hn as [(Hc' & _) | (Hb & Hev)].
+    + right. split; assumption.
+    + destruct ev; try contradiction.
+      destruct Htxl as [(T1 & T2) | (Dc & _)].
+      * left. destruct Hb as (B1 & B2 & _). destruct Hb' as (B1' & B2' & _).
+        unfold log_written, log_closed. rewrite B1', B2', <- T1, <- T2, B1, B2. split; reflexivity.
+      * exfalso. destruct (HC Dc) as (Hc' & _). destruct Hev as [E|E]; congruence.
+Qed.
+
+Lemma jl_step cx s ev s' out tags gt gt' J :
+  run_ev ev -> tcp_step cx s ev = Ok (s', out, tags) ->
+  inv gt' s' ->
+  tx_same gt s ev gt' out \/ tx_new cx gt s ev gt' s' out ->
+  jl J gt s -> jl (next_J J gt') gt' s'.
+Proof.
+  intros Hrun Hstep Hi' Hrel Hjl.
+  destruct (step_le _ _ _ _ _ _ Hrun Hstep) as (_ & HL & HC).
+  unfold jl, next_J in *. destruct J as [j|].
+  - destruct Hjl as (Hj & Hd & Hc). split; [exact Hj|].
+    destruct Hrel as [Hs | ((_ & _ & Hp') & Hn)].
+    + pose proof Hs as (Hiss & _ & _ & _ & Hmono & _).
+      destruct (g_phase gt) eqn:Ep.
+      * (* dead-ish: stays PSyn and CLOSED *)
+        pose proof (Hc eq_refl) as Hcl.
+        assert (Hp' : g_phase gt' = PSyn) by (eapply same_closed_syn; eassumption).
+        split; [intros; congruence|]. intros _. apply (HC Hcl).
+      * split; [intros _; rewrite Hiss; apply Hd; congruence|].
+        intros E. exfalso. apply (Hmono ltac:(congruence)). exact E.
+      * split; [intros _; rewrite Hiss; apply Hd; congruence|].
+        intros E. exfalso. apply (Hmono ltac:(congruence)). exact E.
+    + split; [intros; congruence|]. intros _.
+      destruct Hn as [(Hc' & _) | ((_ & _ & Hp) & Hev)]; [exact Hc'|].
+      exfalso. pose proof (Hc Hp) as Hcl. destruct (HC Hcl) as (Hc' & _).
+      destruct ev; try contradiction. destruct Hev as [E|E]; congruence.
+  - destruct (phase_syn gt') eqn:Ep.
+    + apply phase_syn_true. exact Ep.
+    + apply phase_syn_false in Ep. split; [apply sq_range'|]. split; [reflexivity|]. intros; congruence.
+Qed.
+
+(* ---------------------------------------------------------------------------------------- *)
+(* the receiver-side links                                                                   *)
+(* ---------------------------------------------------------------------------------------- *)
+Lemma dispatch_resets_closed cx s ok s' res tags :
+  dispatch_resets cx s = true -> tcp_dispatch cx s ok = Ok (s', res, tags) ->
+  s_state s' = Closed /\ res = DNothing.
+Proof.
+  unfold dispatch_resets, tcp_dispatch. destruct (s_tuple s) as [t|]; [|discriminate].
+  intros ->. intros H. inversion H; subst. split; [apply reset_fields_le | reflexivity].
+Qed.
+
+Lemma l_len_app' a b : l_len (a ++ b) = l_len a + l_len b.
+Proof. rewrite !TcpRecvBase.l_len_spec, app_length, Nat2Z.inj_add. reflexivity. Qed.
+
+Section RxLink.
+  Variable S : Z -> Z.
+  Variable F : option Z.
+  Hypothesis F_nonneg : forall f, F = Some f -> 0 <= f.
+  Notation Sx := (fun _ : nat => S).
+  Notation Fx := (fun _ : nat => F).
+
+  Lemma Fx_nonneg : forall (e : nat) f, Fx e = Some f -> 0 <= f.
+  Proof. intros e f. apply F_nonneg. Qed.
+
+  Lemma rxl_step cx ex ev ex' s' out tags gr :
+    run_ev ev -> tcp_step cx (ep_sock ex) ev = Ok (s', out, tags) -> xfacts ex ev ex' s' out ->
+    ginv Sx Fx gr (ep_sock ex) -> ev_ok Sx Fx gr (ep_sock ex) ev ->
+    rxl F gr ex -> rxl F (ghost_step cx gr (ep_sock ex) ev s' out) ex'.
+  Proof.
+    intros Hrun Hstep (X1 & _ & _ & _ & X5 & X6 & _) Hg Hev (R1 & R2 & R3).
+    destruct (step_le _ _ _ _ _ _ Hrun Hstep) as (_ & _ & HC).
+    pose proof (step_inv Sx Fx Fx_nonneg cx gr (ep_sock ex) ev s' out tags Hg Hev Hstep) as (Hg' & _ & Hfin & _).
+    set (s := ep_sock ex) in *.
+    assert (Hkeep : ghost_step cx gr s ev s' out = gr ->
+                    ep_read ex' = ep_read ex -> ep_finished ex' = ep_finished ex ->
+                    rxl F (ghost_step cx gr s ev s' out) ex').
+    { intros Eg E5 E6. rewrite Eg. unfold rxl. rewrite E5, E6, X1. split; [exact R1|]. split; [|exact R3].
+      intros Hn. destruct (R2 Hn) as [E|E]; [left; exact E | right; apply (HC E)]. }
+    destruct ev; try contradiction.
+    - (* close *) apply Hkeep; [reflexivity | rewrite X5; reflexivity | rewrite X6; reflexivity].
+    - (* send *) apply Hkeep; [reflexivity | rewrite X5; destruct out; reflexivity | rewrite X6; destruct out; reflexivity].
+    - (* recv *)
+      unfold rxl. rewrite X1, X5, X6.
+      cbn [tcp_step] in Hstep. cbn [ghost_step log_read log_finished].
+      destruct (tcp_recv_slice s n) as [(s1, b)|e|] eqn:Er; [| |discriminate]; inversion Hstep; subst s' out tags; clear Hstep.
+      + unfold ginv in Hg. destruct (g_irs gr) as [irs|] eqn:Ei.
+        * cbn [g_irs g_delivered]. split; [intros _; rewrite R1 by congruence; reflexivity|].
+          split; [intros; congruence|]. intros Hf. destruct (R3 Hf) as (m & Hm & Hle). exists m. split; [exact Hm|].
+          rewrite l_len_app'. pose proof (TcpRecvBase.l_len_nonneg b). lia.
+        * exfalso. destruct Hg as (Hu & _). rewrite (recv_unsynced s n Hu) in Er. discriminate.
+      + split; [exact R1|]. split; [intros Hn; destruct (R2 Hn) as [E|E]; [left; exact E | right; first [exact E | apply (HC E)]]|].
+        intros Hf.
+        assert (Hcase : e = 2 \/ ep_finished ex = true).
+        { destruct e as [|[|[| |]|]|]; auto. }
+        destruct Hcase as [-> | Hold]; [|exact (R3 Hold)].
+        destruct (Hfin n eq_refl eq_refl) as (irs & Hi & HF).
+        exists (g_consumed gr). split; [exact HF|].
+        unfold ginv in Hg. rewrite Hi in Hg. destruct Hg as (_ & (Hl & _)).
+        rewrite <- R1 by congruence. lia.
+    - (* segment *)
+      unfold rxl. rewrite X1, X5, X6.
+      cbn [log_read log_finished]. cbn [ghost_step].
+      destruct (g_irs gr) as [irs|] eqn:Ei.
+      + destruct (is_state s' Listen) eqn:El.
+        * unfold g_unsync. cbn [g_irs g_delivered]. split; [intros; congruence|]. split; [|exact R3].
+          intros _. left.
+          destruct (segment_unsync_empty Sx Fx Fx_nonneg cx gr s ip r s' out tags Hg Hev Hstep) as (_ & Hd).
+          { congruence. } { cbn [ghost_step]. rewrite Ei, El. reflexivity. }
+          rewrite <- R1 by congruence. exact Hd.
+        * cbn [g_irs g_delivered]. split; [intros _; apply R1; congruence|]. split; [intros; congruence | exact R3].
+      + destruct (is_state s' SynReceived || is_state s' Established) eqn:Es.
+        * cbn [g_irs g_delivered]. split; [|split; [intros; congruence | exact R3]].
+          intros _. destruct (R2 eq_refl) as [E|E]; [symmetry; exact E|].
+          exfalso. destruct (HC E) as (Hc' & _). unfold is_state in Es. rewrite Hc' in Es. discriminate.
+        * rewrite Ei. split; [intros; congruence|]. split; [|exact R3].
+          intros _. destruct (R2 eq_refl) as [E|E]; [left; exact E | right; apply (HC E)].
+    - (* dispatch *)
+      unfold rxl. rewrite X1, X5, X6.
+      cbn [log_read log_finished]. cbn [ghost_step].
+      destruct (dispatch_resets cx s) eqn:Ed.
+      + unfold g_unsync. cbn [g_irs g_delivered]. split; [intros; congruence|]. split; [|exact R3].
+        intros _. right. cbn [tcp_step] in Hstep.
+        apply obind_ok_inv in Hstep. destruct Hstep as (((s1 & res) & tg) & Hd & Hstep). inversion Hstep; subst.
+        apply (dispatch_resets_closed _ _ _ _ _ _ Ed Hd).
+      + split; [exact R1|]. split; [|exact R3].
+        intros Hn. destruct (R2 Hn) as [E|E]; [left; exact E | right; apply (HC E)].
+  Qed.
+End RxLink.
+
+Lemma rb_wf_conv r : TcpRecvBase.rb_wf r -> TcpSendBase.rb_wf r.
+Proof. intros (H1 & H2 & H3 & H4). split; [exact H1|]. split; [exact H2|]. split; [exact H3|]. lia. Qed.
+
+Section KLink.
+  Variable S : Z -> Z.
+  Variable F : option Z.
+  Hypothesis F_nonneg : forall f, F = Some f -> 0 <= f.
+  Notation Sx := (fun _ : nat => S).
+  Notation Fx := (fun _ : nat => F).
+
+  Lemma rcv_nxt_off_nonneg gr s : ginv Sx Fx gr s -> g_irs gr <> None -> 0 <= rcv_nxt_off gr s.
+  Proof.
+    unfold ginv. destruct (g_irs gr); [|congruence]. intros (((Hwf & _ & _ & _ & Hc & _) & _) & _) _.
+    destruct Hwf as (Hl & _). unfold rcv_nxt_off, rcv_count. pose proof (b2z_range (s_rx_fin_received s)). lia.
+  Qed.
+
+  (* a run event keeps irs while the ghost stays synchronised *)
+  Lemma ghost_irs_keep cx gr s ev s' out irs :
+    run_ev ev -> g_irs gr = Some irs ->
+    g_irs (ghost_step cx gr s ev s' out) = Some irs \/
+    (g_irs (ghost_step cx gr s ev s' out) = None /\
+     ((exists ip r, ev = EvSegment ip r) \/ (exists ok, ev = EvDispatch ok /\ dispatch_resets cx s = true))).
+  Proof.
+    intros Hrun Hi. destruct ev; try contradiction; cbn [ghost_step].
+    - left; exact Hi.
+    - left; exact Hi.
+    - destruct out; cbn [g_irs]; left; exact Hi.
+    - rewrite Hi. destruct (is_state s' Listen).
+      + right. split; [reflexivity|]. left. eauto.
+      + left. reflexivity.
+    - destruct (dispatch_resets cx s) eqn:Ed.
+      + right. split; [reflexivity|]. right. eauto.
+      + left. exact Hi.
+  Qed.
+
+  (* ... and an unsynchronised ghost synchronises only by a segment *)
+  Lemma ghost_sync_seg cx gr s ev s' out :
+    run_ev ev -> g_irs gr = None -> g_irs (ghost_step cx gr s ev s' out) <> None ->
+    exists ip r, ev = EvSegment ip r.
+  Proof.
+    intros Hrun Hi Hn. destruct ev; try contradiction; cbn [ghost_step] in Hn.
+    - exfalso. apply Hn. destruct out; cbn [g_irs]; exact Hi.
+    - eauto.
+    - exfalso. apply Hn. destruct (dispatch_resets cx s); [reflexivity | exact Hi].
+  Qed.
+
+  Lemma kl_step cx s ev s' out tags gr K R :
+    run_ev ev -> tcp_step cx s ev = Ok (s', out, tags) ->
+    ginv Sx Fx gr s -> ev_ok Sx Fx gr s ev ->
+    (forall irs', g_irs gr = None -> g_irs (ghost_step cx gr s ev s' out) = Some irs' ->
+                  forall k, K = Some k -> k = irs') ->
+    kl K R gr s ->
+    let gr' := ghost_step cx gr s ev s' out in
+    kl (next_K K gr') (next_R R gr' s') gr' s' /\ R <= next_R R gr' s'.
+  Proof.
+    intros Hrun Hstep Hg Hev Hre (HR0 & HKr & Hk). cbv zeta.
+    destruct (step_le _ _ _ _ _ _ Hrun Hstep) as (_ & _ & HC).
+    pose proof (step_inv Sx Fx (Fx_nonneg F F_nonneg) cx gr s ev s' out tags Hg Hev Hstep) as (Hg' & _).
+    set (gr' := ghost_step cx gr s ev s' out) in *.
+    unfold kl, next_K, next_R.
+    destruct (g_irs gr) as [irs|] eqn:Ei.
+    - destruct Hk as (HK & HR).
+      destruct (ghost_irs_keep cx gr s ev s' out irs Hrun Ei) as [Hk' | (Hk' & Hwhy)]; fold gr' in Hk'; rewrite Hk'.
+      + assert (Hm : R <= rcv_nxt_off gr' s').
+        { rewrite HR. apply (rcv_nxt_mono Sx Fx (Fx_nonneg F F_nonneg) cx gr s ev s' out tags Hg Hev Hstep); fold gr'; congruence. }
+        split; [|exact Hm]. split; [lia|]. rewrite HK. split; [rewrite <- HK; exact HKr|]. split; reflexivity.
+      + split; [|lia]. split; [exact HR0|]. rewrite HK. split; [rewrite <- HK; exact HKr|].
+        destruct Hwhy as [(ip & r & ->) | (ok & -> & Hd)].
+        * left. destruct (segment_unsync_pre Sx Fx (Fx_nonneg F F_nonneg) cx gr s ip r s' out tags Hg Hev Hstep) as (H1 & H2);
+            [congruence | exact Hk' |]. rewrite HR. unfold rcv_nxt_off. rewrite H1, H2. reflexivity.
+        * right. cbn [tcp_step] in Hstep. apply obind_ok_inv in Hstep.
+          destruct Hstep as (((s1 & res) & tg) & Hd' & Hstep). inversion Hstep; subst.
+          apply (dispatch_resets_closed _ _ _ _ _ _ Hd Hd').
+    - destruct (g_irs gr') as [irs'|] eqn:Ei'.
+      + assert (Hnn : 0 <= rcv_nxt_off gr' s') by (apply rcv_nxt_off_nonneg; [exact Hg' | congruence]).
+        destruct (ghost_sync_seg cx gr s ev s' out Hrun Ei) as (ip & r & ->); [fold gr'; congruence|].
+        assert (HR' : R = 0).
+        { destruct Hk as [E|E]; [exact E|]. exfalso. destruct (HC E) as (Hc' & _).
+          unfold gr' in Ei'. cbn [ghost_step] in Ei'. rewrite Ei in Ei'. unfold is_state in Ei'. rewrite Hc' in Ei'.
+          cbn in Ei'. congruence. }
+        split; [|lia]. split; [exact Hnn|].
+        destruct (sync_only_by_syn Sx Fx (Fx_nonneg F F_nonneg) cx gr s ip r s' out tags Hg Hev Hstep Ei) as (_ & Hirs & _);
+          [fold gr'; congruence|]. fold gr' in Hirs. rewrite Ei' in Hirs. inversion Hirs; subst irs'.
+        destruct Hev as (Hrange & _).
+        destruct K as [k|].
+        * rewrite (Hre _ eq_refl eq_refl k eq_refl). split; [intros k0 E; inversion E; subst; exact Hrange|]. split; reflexivity.
+        * split; [intros k0 E; inversion E; subst; exact Hrange|]. split; reflexivity.
+      + split; [|lia]. split; [exact HR0|]. split.
+        * destruct K; [exact HKr|]. intros k E. discriminate.
+        * destruct Hk as [E|E]; [left; exact E | right; apply (HC E)].
+  Qed.
+End KLink.
